@@ -1,6 +1,80 @@
-(** C36 — the trace database records exactly the traced tasks.  Property theorems only. *)
-From Akita Require Import Lib.Base C36.Model C36.Spec.
+(** C36 — the trace database records exactly the traced tasks.  Property theorems only.
+
+    A history [ops] is the list of calls made on one DBTracer in program order:
+    task events (StartTask / EndTask / AddTaskTag / AddMilestone) interleaved with
+    StartTracing / StopTracing in ANY order (no alternation hypothesis) and ended by
+    Terminate.  [wf_ops ops]: the task events are well formed (a task is started at
+    most once with valid fields, ended / tagged / given milestones only while it is
+    running), the clock does not go back and nothing follows Terminate. *)
+From Akita Require Import Lib.Base C36.Model C36.Spec C36.Proofs1 C36.Proofs2 C36.Proofs3.
 Local Open Scope N_scope.
+
+(** No call panics, and the database holds, table by table and in order, exactly
+    the rows of the specification; after Terminate nothing is left in the
+    recorder's buffer. *)
+Theorem c36_model_refines_spec : forall ops, wf_ops ops = true ->
+  let s := final ops in
+  forallb negb (snd (run ops)) = true /\
+  all_trace s = fst (fst (spec_rows [] ops)) /\
+  all_mile s = snd (fst (spec_rows [] ops)) /\
+  all_tag s = snd (spec_rows [] ops) /\
+  all_seg s = windows ops None /\
+  s_tracing s = on_after ops /\
+  (ends_term ops = true ->
+   s_pend s = tabs0 /\ t_trace (s_db s) = all_trace s /\ t_mile (s_db s) = all_mile s /\
+   t_tag (s_db s) = all_tag s /\ t_seg (s_db s) = all_seg s).
+Proof. exact final_ok. Qed.
+Print Assumptions c36_model_refines_spec.
+
+(** A trace row is in the database IFF it is the row (ID, parent, kind, what,
+    location, start, end) of a task that was running at some point while tracing
+    was on — tracing was on when it started, or StartTracing was called while it was
+    running — and that ended (before Terminate, which is the last call). *)
+Theorem c36_recorded_iff : forall ops row, wf_ops ops = true -> ends_term ops = true ->
+  (In row (t_trace (s_db (final ops))) <-> should_record ops row).
+Proof.
+  intros ops row Hwf He. destruct (final_ok ops Hwf) as [_ [H2 [_ [_ [_ [_ H7]]]]]].
+  destruct (H7 He) as [_ [-> _]]. rewrite H2. apply recorded_iff. exact Hwf.
+Qed.
+Print Assumptions c36_recorded_iff.
+
+(** ... exactly once: no two trace rows carry the same task ID. *)
+Theorem c36_once : forall ops, wf_ops ops = true -> ends_term ops = true ->
+  NoDup (map row_id (t_trace (s_db (final ops)))).
+Proof.
+  intros ops Hwf He. destruct (final_ok ops Hwf) as [_ [H2 [_ [_ [_ [_ H7]]]]]].
+  destruct (H7 He) as [_ [-> _]]. rewrite H2. apply recorded_once. exact Hwf.
+Qed.
+Print Assumptions c36_once.
+
+(** With a recorded task its tags (all of them, in order) and its milestones (the
+    first of every instant, in order) are recorded: the tag and milestone tables are
+    the concatenation, over the recorded tasks in the order of their ends, of
+    [tags_of id between] and [first_per_instant [] (miles_of id between)], where
+    [between] are the calls made while the task was running ([spec_rows]); and the
+    milestones kept for one task have pairwise different instants. *)
+Theorem c36_tags_milestones : forall ops, wf_ops ops = true -> ends_term ops = true ->
+  t_mile (s_db (final ops)) = snd (fst (spec_rows [] ops)) /\
+  t_tag (s_db (final ops)) = snd (spec_rows [] ops).
+Proof.
+  intros ops Hwf He. destruct (final_ok ops Hwf) as [_ [_ [H3 [H4 [_ [_ H7]]]]]].
+  destruct (H7 He) as [_ [_ [-> [-> _]]]]. auto.
+Qed.
+Print Assumptions c36_tags_milestones.
+
+Theorem c36_milestone_per_instant : forall seen l, NoDup (map mile_time (first_per_instant seen l)).
+Proof. exact fpi_nodup. Qed.
+Print Assumptions c36_milestone_per_instant.
+
+(** Each tracing window — from a StartTracing issued while tracing is off to the
+    next StopTracing or Terminate — is recorded as one segment, and nothing else is. *)
+Theorem c36_segments : forall ops, wf_ops ops = true -> ends_term ops = true ->
+  t_seg (s_db (final ops)) = windows ops None.
+Proof.
+  intros ops Hwf He. destruct (final_ok ops Hwf) as [_ [_ [_ [_ [H5 [_ H7]]]]]].
+  destruct (H7 He) as [_ [_ [_ [_ ->]]]]. exact H5.
+Qed.
+Print Assumptions c36_segments.
 
 (** Regression: before the fix a StopTracing without a start recorded [0,now]. *)
 Theorem c36_stop_without_start_old_refuted :
@@ -16,3 +90,25 @@ Theorem c36_double_start_old_refuted :
   t_seg (s_db (final ops)) = [seg_row 200 400] /\ windows ops None = [seg_row 200 400].
 Proof. vm_compute. repeat split. Qed.
 Print Assumptions c36_double_start_old_refuted.
+
+(** Non-vacuity: a well-formed history with non-alternating control calls, a task
+    running when tracing is switched on, a task outside every window, two
+    milestones at one instant. *)
+Example c36_nonvacuous :
+  let ops := [OStopTracing 1; OStart 1 0 1 2 3 5; OStart 2 1 1 2 4 6; OEnd 2 7;
+              OStartTracing 8; OStartTracing 9; OMile 50 1 10 6 7; OMile 51 1 10 8 9; OTag 60 1 5 11;
+              OEnd 1 12; OStopTracing 13; OStopTracing 14; OStart 3 0 1 2 3 15; OEnd 3 16; OTerminate 20] in
+  wf_ops ops = true /\ ends_term ops = true /\
+  t_trace (s_db (final ops)) = [trace_row 1 0 1 2 3 5 12] /\
+  t_mile (s_db (final ops)) = [mile_row 50 1 10 6 7] /\
+  t_tag (s_db (final ops)) = [tag_row 60 1 11 5] /\
+  t_seg (s_db (final ops)) = [seg_row 8 13] /\
+  should_record ops (trace_row 1 0 1 2 3 5 12).
+Proof.
+  vm_compute. repeat split.
+  exists [OStopTracing 1], [OStart 2 1 1 2 4 6; OEnd 2 7; OStartTracing 8; OStartTracing 9;
+                            OMile 50 1 10 6 7; OMile 51 1 10 8 9; OTag 60 1 5 11],
+         [OStopTracing 13; OStopTracing 14; OStart 3 0 1 2 3 15; OEnd 3 16; OTerminate 20],
+         1, 0, 1, 2, 3, 5, 12.
+  repeat split.
+Qed.
